@@ -7,32 +7,55 @@ Local Open Scope Z_scope.
 Definition enters (i n : nat) : list ev := map EEnter (seq i n).
 
 (* e? on the Err/None a link produced: evaluate_error_propagation rebuilds exactly the same stored value *)
-Lemma qmark_fail : forall k l, m_qmark k (encode (fail_cval k l)) = QThrow (encode (fail_cval k l)).
-Proof. intros k [c p]. destruct k; destruct p; reflexivity. Qed.
+Lemma qmark_fail : forall k l lf, opnd_ok k l lf = true ->
+  m_qmark k (q_operand (l_opnd l) (encode (fail_cval k lf))) = QThrow (encode (fail_cval k lf)).
+Proof.
+  intros k [c p o] [cf pf of] H. unfold opnd_ok in H. simpl in *.
+  destruct o; destruct k; destruct pf; simpl in *; try discriminate; reflexivity.
+Qed.
 
-Lemma qmark_ok_int : forall k z, m_qmark k (encode (mkC (v_ok k) (PInt z))) = QVal z.
-Proof. intros k z. destruct k; reflexivity. Qed.
+Lemma qmark_ok_int : forall k o z, m_qmark k (q_operand o (encode (mkC (v_ok k) (PInt z)))) = QVal z.
+Proof. intros k o z. destruct k; destruct o; reflexivity. Qed.
 
 Lemma fail_not_ok : forall k l, str_eqb (c_variant (fail_cval k l)) (v_ok k) = false.
 Proof. intros k l. destruct k; reflexivity. Qed.
 
 (* ---------------------------------------------------------------- Err/None: the same value, at once *)
-Lemma qmark_err_l : forall ls k okp d i, (d < List.length ls)%nat ->
+(* the links above the failing one read its Err/None through an operand form that keeps it *)
+Definition above_ok (k : rkind) (ls : list link) (d : nat) : Prop :=
+  forall lf, nth_error ls d = Some lf -> forall j l, (j < d)%nat -> nth_error ls j = Some l -> opnd_ok k l lf = true.
+
+Lemma qmark_err_l : forall ls k okp d i, (d < List.length ls)%nat -> above_ok k ls d ->
   m_chain k okp (i + d) i ls =
     (enters i (S d), match nth_error ls d with Some l => inl (encode (fail_cval k l)) | None => inr XUnmodelled end).
 Proof.
-  induction ls as [|l rest IH]; intros k okp d i Hd; simpl in Hd; [lia|].
+  induction ls as [|l rest IH]; intros k okp d i Hd Hab; simpl in Hd; [lia|].
   destruct d as [|d'].
   - simpl. replace (i + 0)%nat with i by lia. rewrite Nat.eqb_refl. reflexivity.
   - cbn [m_chain]. assert (Hne : Nat.eqb (i + S d') i = false) by (apply Nat.eqb_neq; lia).
     rewrite Hne.
     destruct rest as [|l2 rest2]; [simpl in Hd; lia|].
     replace (i + S d')%nat with (S i + d')%nat by lia.
-    rewrite (IH k okp d' (S i)); [|simpl in *; lia].
-    cbn [nth_error]. destruct (nth_error (l2 :: rest2) d') as [lf|] eqn:En.
-    + rewrite qmark_fail. unfold enters. cbn [seq map].
-      destruct (l_ctx l); reflexivity.
-    + apply nth_error_None in En. simpl in *. lia.
+    rewrite (IH k okp d' (S i)); [|simpl in *; lia|].
+    + cbn [nth_error]. destruct (nth_error (l2 :: rest2) d') as [lf|] eqn:En.
+      * rewrite (qmark_fail k l lf).
+        -- unfold enters. cbn [seq map]. destruct (l_ctx l); reflexivity.
+        -- apply (Hab lf En 0%nat l); [lia|reflexivity].
+      * apply nth_error_None in En. simpl in *. lia.
+    + intros lf Hlf j l' Hj Hl'. apply (Hab lf Hlf (S j) l'); [lia|exact Hl'].
+Qed.
+
+(* every link reads with the call form: the condition holds whatever fails *)
+Lemma above_ok_calls : forall k ls d, (forall l, In l ls -> l_opnd l = OpCall) -> above_ok k ls d.
+Proof.
+  intros k ls d H lf _ j l _ Hl. unfold opnd_ok. rewrite (H l (nth_error_In _ _ Hl)). reflexivity.
+Qed.
+(* the failing payload is an integer, or the chain is an Option chain: the condition holds whatever the operand forms *)
+Lemma above_ok_nonstring : forall k ls d,
+  (k = KOption \/ forall lf, nth_error ls d = Some lf -> is_strp (l_err lf) = false) -> above_ok k ls d.
+Proof.
+  intros k ls d H lf Hlf j l _ _. unfold opnd_ok. destruct (l_opnd l); [reflexivity|].
+  destruct H as [->|H]; [reflexivity|]. destruct k; [|reflexivity]. rewrite (H lf Hlf). reflexivity.
 Qed.
 
 (* ---------------------------------------------------------------- Ok/Some: exactly the payload *)
@@ -117,14 +140,15 @@ Qed.
 Lemma enters_app : forall i a b, enters i (a + b) = enters i a ++ enters (i + a) b.
 Proof. intros. unfold enters. rewrite seq_app, map_app. reflexivity. Qed.
 
-Lemma qmark_err_prefix_l : forall ls k z d i sel0, (d < List.length ls)%nat -> existsb is_qstmt ls = false ->
+Lemma qmark_err_prefix_l : forall ls k z d i sel0, (d < List.length ls)%nat -> above_ok k ls d ->
+  existsb is_qstmt ls = false ->
   (forall d', (d' < List.length ls)%nat -> sel0 <> (i + d')%nat) ->
   exists rest, fst (m_chain k (PInt z) sel0 i ls) = fst (m_chain k (PInt z) (i + d) i ls) ++ rest.
 Proof.
-  intros ls k z d i sel0 Hd Hq Hsel.
+  intros ls k z d i sel0 Hd Hab Hq Hsel.
   assert (Hne : ls <> []) by (destruct ls; [simpl in Hd; lia|discriminate]).
   destruct (ok_events_shape ls k z sel0 i Hne Hq Hsel) as (tail & Ht).
-  rewrite Ht. rewrite (qmark_err_l ls k (PInt z) d i Hd).
+  rewrite Ht. rewrite (qmark_err_l ls k (PInt z) d i Hd Hab).
   simpl fst. replace (List.length ls) with (S d + (List.length ls - S d))%nat by lia.
   rewrite enters_app. rewrite <- app_assoc. eexists. reflexivity.
 Qed.
@@ -134,15 +158,17 @@ Definition shape (k : rkind) (z : Z) (ls : list link) (c : cval) : Prop :=
   (c = mkC (v_ok k) (PInt z) \/ c = mkC (v_ok k) (PInt 100)) \/ (exists l, In l ls /\ c = fail_cval k l).
 
 Lemma chain_refines : forall ls k z sel i, ls <> [] ->
+  (forall l lf, In l ls -> In lf ls -> opnd_ok k l lf = true) ->
   exists evs c, s_chain k (PInt z) sel i ls = (evs, inl c) /\
                 m_chain k (PInt z) sel i ls = (evs, inl (encode c)) /\ shape k z ls c.
 Proof.
-  induction ls as [|l rest IH]; intros k z sel i Hne; [congruence|].
+  induction ls as [|l rest IH]; intros k z sel i Hne Hop; [congruence|].
   cbn [m_chain s_chain]. destruct (Nat.eqb sel i) eqn:Ei.
   - exists [EEnter i], (fail_cval k l). repeat split. right. exists l. split; [left; reflexivity|reflexivity].
   - destruct rest as [|l2 rest2].
     + exists [EEnter i], (mkC (v_ok k) (PInt z)). repeat split. left. left. reflexivity.
-    + destruct (IH k z sel (S i)) as (evs & c & Hs & Hm & Hsh); [discriminate|].
+    + destruct (IH k z sel (S i)) as (evs & c & Hs & Hm & Hsh); [discriminate| |].
+      { intros l' lf' H1 H2. apply Hop; right; assumption. }
       rewrite Hs, Hm. destruct Hsh as [[Hok|Hok]|(lf & Hin & Hf)].
       * subst c. rewrite qmark_ok_int. simpl c_variant. rewrite str_eqb_refl.
         destruct (l_ctx l).
@@ -159,7 +185,7 @@ Proof.
         -- eexists; eexists; repeat split. left; right; reflexivity.
         -- eexists; eexists; repeat split. left; right; reflexivity.
       * (* a link below failed: every context lets the Err/None through *)
-        subst c. rewrite qmark_fail. rewrite fail_not_ok.
+        subst c. rewrite (qmark_fail k l lf) by (apply Hop; [left; reflexivity|right; exact Hin]). rewrite fail_not_ok.
         exists (EEnter i :: evs), (fail_cval k lf). split; [reflexivity|]. split.
         -- destruct (l_ctx l); reflexivity.
         -- right. exists lf. split; [right; exact Hin|reflexivity].
@@ -168,11 +194,15 @@ Qed.
 Lemma chain_refines_run : forall p, safe_q p = true -> m_run_q p = s_run_q p.
 Proof.
   intros [k ls okp sel] Hs. unfold safe_q in Hs. simpl in Hs.
+  apply andb_true_iff in Hs. destruct Hs as [Hs Hopnd].
   apply andb_true_iff in Hs. destruct Hs as [Hs Hgood].
   apply andb_true_iff in Hs. destruct Hs as [Hne Hok].
   destruct okp as [|z|s]; try discriminate.
   assert (Hne' : ls <> []) by (destruct ls; [discriminate|discriminate]).
-  destruct (chain_refines ls k z sel 1 Hne') as (evs & c & Hsc & Hmc & Hsh).
+  assert (Hop : forall l lf, In l ls -> In lf ls -> opnd_ok k l lf = true).
+  { intros l lf Hl Hlf. rewrite forallb_forall in Hopnd. specialize (Hopnd l Hl).
+    rewrite forallb_forall in Hopnd. apply Hopnd. exact Hlf. }
+  destruct (chain_refines ls k z sel 1 Hne' Hop) as (evs & c & Hsc & Hmc & Hsh).
   unfold m_run_q, s_run_q. simpl. rewrite Hsc, Hmc. rewrite variant_encode.
   assert (Hg : good_for_match (c_payload c) = true).
   { destruct Hsh as [[->| ->]|(lf & Hin & ->)]; simpl; try reflexivity.
@@ -185,13 +215,20 @@ Qed.
 (* ---------------------------------------------------------------- the defects, as witnesses *)
 (* f2(x)?; as a statement (former witness of the swallowed Err, repaired by /repo d2267e2): the Err leaves f1 *)
 Lemma qmark_statement_example_l :
-  let p := mkQ KResult [mkL QStmt (PInt 1); mkL QDecl (PStr (s2l "e2"))] (PInt 5) 2 in
+  let p := mkQ KResult [mkL QStmt (PInt 1) OpCall; mkL QDecl (PStr (s2l "e2")) OpCall] (PInt 5) 2 in
   m_run_q p = mkR [EEnter 1; EEnter 2; EArm 1 (VStr (s2l "e2")); EAfter] XOk /\ s_run_q p = m_run_q p.
 Proof. vm_compute. split; reflexivity. Qed.
 
 (* string v = f2(x)?; with f2 returning Ok("abc"): ? reads the integer channel only; the initialiser runs twice *)
 Lemma qmark_string_refuted_l :
-  let p := mkQ KResult [mkL QDecl (PStr (s2l "e")); mkL QDecl (PStr (s2l "e"))] (PStr (s2l "abc")) 0 in
+  let p := mkQ KResult [mkL QDecl (PStr (s2l "e")) OpCall; mkL QDecl (PStr (s2l "e")) OpCall] (PStr (s2l "abc")) 0 in
   m_run_q p = mkR [EEnter 1; EEnter 2; EEnter 2; EPost 1 (VStr []); EArm 0 (VInt 0); EAfter] XOk /\
   s_run_q p = mkR [EEnter 1; EEnter 2; EPost 1 (VStr (s2l "abc")); EArm 0 (VStr (s2l "abc")); EAfter] XOk.
+Proof. vm_compute. split; reflexivity. Qed.
+
+(* R t = f2(x); long v = t?;  with f2 returning Err("e2"): the declaration drops the string, f1 returns Err(0) *)
+Lemma qmark_variable_string_refuted_l :
+  let p := mkQ KResult [mkL QDecl (PInt 1) OpVar; mkL QDecl (PStr (s2l "e2")) OpCall] (PInt 5) 2 in
+  m_run_q p = mkR [EEnter 1; EEnter 2; EArm 1 (VInt 0); EAfter] XOk /\
+  s_run_q p = mkR [EEnter 1; EEnter 2; EArm 1 (VStr (s2l "e2")); EAfter] XOk.
 Proof. vm_compute. split; reflexivity. Qed.
